@@ -45,6 +45,12 @@ SameKind(X, Y) == X.n = Y.n /\ X.m1 = Y.m1 /\ X.m2 = Y.m2
 SameBand(X, Y) == /\ WellFormedB(X) /\ WellFormedB(Y) /\ SameKind(X, Y)
                   /\ \A p \in BandPos(X) : BGet(X, p[1], p[2]) = BGet(Y, p[1], p[2])
 
+\* entry (i, j) of the dense twin: zero outside the band
+DGet(B, i, j) == IF InBand(B, i, j) THEN BGet(B, i, j) ELSE 0
+\* Z is, AS A DENSE MATRIX, X + sg * Y: operands of equal size whatever their bandwidths (the only reading of a sum or
+\* difference of banded operands whose geometries differ - their storages agree at most in aggregates)
+DenseLin(Z, X, Y, sg) == /\ WellFormedB(Z) /\ WellFormedB(X) /\ WellFormedB(Y) /\ Z.n = X.n /\ Y.n = X.n
+                         /\ \A i, j \in 0..(X.n - 1) : DGet(Z, i, j) = DGet(X, i, j) + sg * DGet(Y, i, j)
 \* operations; model results carry zero padding (never compared)
 Z2(i, c) == 0
 BNew(n, m1, m2, x) == MkB(n, m1, m2, LAMBDA i, j : x, Z2)
